@@ -28,6 +28,13 @@ Theorem C20_stream_positions : forall order n,
 Proof. exact OrderProofs.stream_positions. Qed.
 Print Assumptions C20_stream_positions.
 
+(* the stream assignment and the input order determine each other: two processes use the random stream the same way
+   exactly when inputs() lists the variables in the same order, so reproducibility is exactly order stability *)
+Theorem C20_stream_iff_order : forall (o1 o2 : list var) n,
+  stream_assignment o1 n = stream_assignment o2 n <-> o1 = o2.
+Proof. exact OrderProofs.stream_iff_order. Qed.
+Print Assumptions C20_stream_iff_order.
+
 (* the ordered form consults no set (no adversarial permutation appears in inputs_ordered at all); as a SET its
    result does not depend on the listing order of the components either *)
 Theorem C20_listing_independent : forall cs c', Permutation c' cs ->
